@@ -137,6 +137,7 @@ func New(ctx context.Context, params ...Parameter) (*Service, error) {
 		slotDuration:                  slotDuration,
 		slotsPerEpoch:                 slotsPerEpoch,
 		epochsPerSyncCommitteePeriod:  epochsPerSyncCommitteePeriod,
+		waitedForGenesis:              parameters.waitedForGenesis,
 		chainTimeService:              parameters.chainTimeService,
 		proposerDutiesProvider:        parameters.proposerDutiesProvider,
 		attesterDutiesProvider:        parameters.attesterDutiesProvider,
